@@ -618,6 +618,21 @@ impl<T: Config> UdpProtocol<T> {
             return;
         }
 
+        // Until our handshake has completed we do not know the peer's magic number and cannot tell
+        // its packets from those of another (earlier) session that used the same address: the magic
+        // filter above is not armed yet. Accept nothing but handshake packets in that phase; the
+        // peer retransmits its inputs until they are acknowledged.
+        if matches!(
+            self.state,
+            ProtocolState::Initializing | ProtocolState::Synchronizing
+        ) && !matches!(
+            msg.body,
+            MessageBody::SyncRequest(_) | MessageBody::SyncReply(_)
+        ) {
+            trace!("Received non-handshake message before synchronization; ignoring");
+            return;
+        }
+
         // update time when we last received packages
         self.last_recv_time = Instant::now();
 
